@@ -539,7 +539,7 @@ class ProgramGen:
     def __init__(self, rng, profile=None):
         self.rng = rng
         self.pf = dict(floats=True, meta=True, errors=True, goto=True, strings=True, coerce=True, level2=True, stage4=True,
-                       paren_dots=True, unary_dummy=True, forin_capture=True, pow_error=True, assert_str=True)
+                       paren_dots=True, unary_dummy=True, forin_capture=True, pow_error=True, assert_str=True, xpcall_co=True)
         if profile:
             self.pf.update(profile)
         self.scopes = [[]]
@@ -945,7 +945,7 @@ class ProgramGen:
             (4, self.s_callstat), (3, self.s_closure_loop), (4, self.s_seq), (4, self.s_rec), (3, self.s_obj),
             (4, self.s_meta), (5, self.s_pcall), (2, self.s_goto), (4, self.s_varargs), (2, self.s_tailrec),
             (2, self.s_multi), (2, self.s_break), (2, self.s_forfloat), (2, self.s_xpcall), (2, self.s_method_str),
-            (2, self.s_iter_closure), (2, self.s_const), (1, self.s_return_early), (4, self.s_close), (5, self.s_co),
+            (2, self.s_iter_closure), (2, self.s_const), (1, self.s_return_early), (4, self.s_close), (5, self.s_co), (4, self.s_assign_alias), (4, self.s_jump_fresh),
         ]
         tot = sum(w for w, _ in table)
         x = r.below(tot)
@@ -1812,6 +1812,97 @@ class ProgramGen:
                 em(Call(Var(g))), Local(["ok", "e"], [Call(Var("pcall"), Var(g))]), em(Var("ok"), And(Bin("eq", Call(Var("type"), Var("e")), Str("table")), Fld(Var("e"), "code"))),
                 em(Call(Var("pcall"), Var(g)))]
 
+
+    def s_assign_alias(self):
+        """multiple assignment whose earlier target is also the table or key of a LATER indexed
+        target (manual 3.3.3: `i, a[i] = i+1, 20` sets a[3] with i = 3 before, and i = 4 after):
+        all subexpressions are evaluated before any assignment"""
+        r = self.rng
+        if self.pure or self.block_depth > 3:
+            return None
+        i, a, t, u = self.fresh("i"), self.fresh("a"), self.fresh("t"), self.fresh("u")
+        k = r.below(7)
+        self.feat("assign-alias:%d" % k)
+        em = lambda *x: self.emit_stat(list(x))
+        n = 1 + r.below(5)
+        e = self.exp("int", 1, False, True)
+        wrap = lambda st: st
+        if r.chance(1, 3):
+            # inside a function, with the aliased variable an upvalue
+            f = self.fresh("f")
+            wrap = lambda st: [st[0], LocalFn(f, Fn([], False, st[1:])), SCall(Call(Var(f)))]
+            self.feat("assign-alias:upvalue")
+        if k == 0:
+            return wrap([Local([i, a], [Int(n), Tab()]), Assign([Var(i), Ix(Var(a), Var(i))], [Bin("add", Var(i), Int(1)), e]),
+                         em(Var(i), Ix(Var(a), Int(n)), Ix(Var(a), Int(n + 1)))])
+        if k == 1:
+            return wrap([Local([t, u], [Tab(FNamed("id", Int(1))), Tab(FNamed("id", Int(2)))]), Local([a], [Var(t)]),
+                         Assign([Var(t), Fld(Var(t), "tag")], [Var(u), Str("x")]),
+                         em(Fld(Var(t), "id"), Fld(Var(t), "tag"), Fld(Var(a), "tag"), Fld(Var(u), "tag"))])
+        if k == 2:
+            return wrap([Local([i, a], [Int(n), Tab()]),
+                         Assign([Var(i), Ix(Var(a), Var(i)), Ix(Var(a), Bin("add", Var(i), Int(1)))], [Int(n + 10), Str("s1"), Str("s2")]),
+                         em(Var(i), Ix(Var(a), Int(n)), Ix(Var(a), Int(n + 1)), Ix(Var(a), Int(n + 10)), Ix(Var(a), Int(n + 11)))])
+        if k == 3:
+            # key and table both reassigned earlier in the same statement
+            return wrap([Local([t, i], [Tab(), Str("p")]), Local([a], [Var(t)]),
+                         Assign([Var(t), Var(i), Ix(Var(t), Var(i))], [Tab(), Str("q"), e]),
+                         em(Ix(Var(a), Str("p")), Ix(Var(a), Str("q")), Ix(Var(t), Str("p")), Ix(Var(t), Str("q")), Var(i))])
+        if k == 4:
+            # in a loop: the classic shift
+            return wrap([Local([i, a], [Int(1), Tab()]),
+                         While(Bin("le", Var(i), Int(n)), [Assign([Var(i), Ix(Var(a), Var(i))], [Bin("add", Var(i), Int(1)), Bin("mul", Var(i), Int(10))])]),
+                         em(Var(i), Un("len", Var(a)), Ix(Var(a), Int(1)), Ix(Var(a), Int(n)), Ix(Var(a), Int(n + 1)))])
+        if k == 5:
+            # method-style field of a rebound object, swap of two tables with fields set through the old names
+            return wrap([Local([t, u], [Tab(FNamed("n", Int(1))), Tab(FNamed("n", Int(2)))]),
+                         Assign([Var(t), Var(u), Fld(Var(t), "v"), Fld(Var(u), "v")], [Var(u), Var(t), Str("vt"), Str("vu")]),
+                         em(Fld(Var(t), "n"), Fld(Var(t), "v"), Fld(Var(u), "n"), Fld(Var(u), "v"))])
+        # nested key expression built from the reassigned local (not bare) next to a bare one
+        return wrap([Local([i, a], [Int(n), Tab(FPos(Tab()), FPos(Tab()), FPos(Tab()), FPos(Tab()), FPos(Tab()), FPos(Tab()), FPos(Tab()))]),
+                     Assign([Var(i), Ix(Ix(Var(a), Var(i)), Var(i))], [Bin("add", Var(i), Int(1)), e]),
+                     em(Var(i), Ix(Ix(Var(a), Int(n)), Int(n)), Ix(Ix(Var(a), Int(n + 1)), Int(n + 1)), Ix(Ix(Var(a), Int(n)), Int(n + 1)))])
+
+    def s_jump_fresh(self):
+        """break / goto leaving a scope whose variable was captured: when the loop or label is
+        reached again in the same activation the variable is a fresh one (manual 3.5); the
+        closures modify their variable after the loops so that sharing shows"""
+        r = self.rng
+        if self.pure or self.block_depth > 2 or not self.pf["goto"]:
+            return None
+        fs, o, i, x, q = self.fresh("fs"), self.fresh("o"), self.fresh("i"), self.fresh("x"), self.fresh("q")
+        k = r.below(8)
+        self.feat("jump-fresh:%d" % k)
+        self.nlabel += 1
+        lab = "L%d" % self.nlabel
+        em = lambda *a: self.emit_stat(list(a))
+        bump = lambda v: Fn([], False, [Assign([Var(v)], [Bin("add", Var(v), Int(1))]), Return(Var(v))])
+        push = lambda v: Assign([Ix(Var(fs), Bin("add", Un("len", Var(fs)), Int(1)))], [bump(v)])
+        use = [For(q, Int(1), Un("len", Var(fs)), None, [em(Call(Ix(Var(fs), Var(q))), Call(Ix(Var(fs), Var(q))))])]
+        n = 2 + r.below(2)
+        if k == 0:      # control variable of a numeric for ended by break, inside an outer loop
+            body = [For(o, Int(1), Int(n), None, [For(i, Int(1), Int(3), None, [push(i), Break()])])]
+        elif k == 1:    # the same with the break in a nested block and a body local in between
+            body = [For(o, Int(1), Int(n), None, [For(i, Int(1), Int(3), None, [Local([x], [Bin("mul", Var(i), Int(10))]), push(i), push(x),
+                                                                                 If([(Bin("ge", Var(x), Int(10)), [Break()])], None)])])]
+        elif k == 2:    # top-level local of a repeat body ended by break
+            body = [For(o, Int(1), Int(n), None, [Repeat([Local([x], [Bin("mul", Var(o), Int(10))]), push(x), Break()], FalseE())])]
+        elif k == 3:    # while body local, break
+            body = [For(o, Int(1), Int(n), None, [While(TrueE(), [Local([x], [Bin("mul", Var(o), Int(10))]), push(x), Break()])])]
+        elif k == 4:    # first local after a label re-reached by a backward goto (no enclosing do-block)
+            body = [Local([o], [Int(0)]), Label(lab), Local([x], [Bin("mul", Var(o), Int(10))]), push(x),
+                    Assign([Var(o)], [Bin("add", Var(o), Int(1))]), If([(Bin("lt", Var(o), Int(n)), [Goto(lab)])], None)]
+            body = [Do(body)] if r.chance(1, 2) else [LocalFn(self.fresh("f"), Fn([], False, body)), SCall(Call(Var("f%d" % self.nname)))]
+        elif k == 5:    # generic for control variables, break, inside an outer loop
+            body = [For(o, Int(1), Int(n), None, [ForIn([i, x], [Call(Var("ipairs"), Tab(FPos(Int(7)), FPos(Int(8))))], [push(i), push(x), Break()])])]
+        elif k == 6:    # goto out of two nested scopes to a label after the loops ("continue" of the outer loop)
+            body = [For(o, Int(1), Int(n), None, [For(i, Int(1), Int(3), None, [Local([x], [Bin("add", Var(i), Var(o))]), push(i), push(x), Goto(lab)]), Label(lab)])]
+        else:           # while loop as the outer repetition, numeric for with break inside
+            w = self.fresh("w")
+            body = [Local([w], [Int(0)]), While(Bin("lt", Var(w), Int(n)), [Assign([Var(w)], [Bin("add", Var(w), Int(1))]),
+                                                                           For(i, Var(w), Int(9), None, [push(i), Break()])])]
+        return [Local([fs], [Tab()])] + body + use
+
     def s_const(self):
         if self.pf.get("ref53"):
             return None
@@ -2282,6 +2373,44 @@ class ErrorGen(ProgramGen):
             out.append(em(Var(ok), Var(e), Call(Fld(Var("math"), "type"), Var(e)) if val in ("int", "flt") else Call(Var("type"), Var(e))))
         return out
 
+
+    def many_errors(self):
+        """a long run of caught errors (the runtime must stay usable: later calls work), in the
+        main thread or inside a coroutine"""
+        r = self.rng
+        k = r.below(8)
+        n = 1500 + r.below(700)
+        self.feat("many-errors:%d" % k)
+        em = lambda *a: self.emit_stat(list(a))
+        c, i, ok, e, E = self.fresh("cnt"), self.fresh("i"), self.fresh("ok"), self.fresh("er"), self.fresh("E")
+        if k == 0:
+            call = Call(Var("pcall"), Var("error"), Var(i))
+        elif k == 1:
+            call = Call(Var("pcall"), Fn([], False, [SCall(Call(Var("error"), Tab(FNamed("i", Var(i)))))]))
+        elif k == 2:
+            call = Call(Var("pcall"), Fld(Var("string"), "rep"))                      # failing library call
+        elif k == 3:
+            call = Call(Var("pcall"), Fn([], False, [Local(["z"], [Nil()]), Return(Bin("add", Var("z"), Var(i)))]))   # run-time error
+        elif k == 4:
+            call = Call(Var("xpcall"), Var("error"), Fn(["m"], False, [Return(Var("m"))]), Var(i))
+        elif k == 5:
+            call = Call(Fld(Var("coroutine"), "resume"), Call(Fld(Var("coroutine"), "create"), Var("error")), Var(i))
+        elif k == 6:
+            call = Call(Var("pcall"), Var("setmetatable"), Int(1), Tab())             # failing library call
+        else:
+            call = Call(Var("pcall"), Var("assert"), FalseE(), Var(i))
+        loop = [Local([c], [Int(0)]),
+                For(i, Int(1), Int(n), None, [Local([ok, e], [call]), If([(Un("not", Var(ok)), [Assign([Var(c)], [Bin("add", Var(c), Int(1))])])], None)]),
+                em(Str("caught"), Var(c))]
+        after = [em(Call(Var("pcall"), Var("type"), Int(1))), em(Call(Var("select"), Str("#"), Int(1), Int(2))),
+                 Local([E], [Tab(FNamed("v", Int(5)))]), em(Call(Var("pcall"), Fn(["rec"], False, [Return(Var("rec"))]), Var(E))),
+                 em(Call(Var("tostring"), Int(12)), Call(Var("rawequal"), Var(E), Var(E)), Call(Fld(Var("string"), "rep"), Str("ab"), Int(2)))]
+        if r.chance(1, 3) and self.pf["stage4"]:
+            self.feat("many-errors:in-coroutine")
+            co = self.fresh("co")
+            return [Local([co], [Call(Fld(Var("coroutine"), "wrap"), Fn([], False, loop + after + [Return(Str("co-done"))]))]), em(Call(Var(co)))] + after
+        return loop + after
+
     def epilogue(self):
         """fixed statements exercising loops, calls, closures, tables, strings after the catches"""
         em = lambda *a: self.emit_stat(list(a))
@@ -2311,6 +2440,8 @@ class ErrorGen(ProgramGen):
                 if self._ends_abruptly(body):
                     body = body[:-1]
             body += self.scenario()
+        if r.chance(1, 6) or self.pf.get("many_errors"):
+            body += self.many_errors()
         body += self.epilogue()
         body.append(self.observe())
         # sometimes the program ends with an error that reaches the embedding caller
